@@ -250,6 +250,13 @@ def v4(ctx):
             ctx.check(ok, "accept-needs-eq", "returning the state as a match is dominated by eq(x, y) == true",
                       "unify returns a match without EGraph::eq(x, y) having answered true", where_of(b, d["bb"]))
     ctx.floor("literal match returns in unify", n, 1)
+    # what is put into an accumulated result: the answers of a recursive attempt, or a state behind eq == true
+    for c in C.result_sinks(b, "out"):
+        r = b.role_of_operand(c.args[1])
+        if role_mentions_call(r, "unify"):
+            continue
+        ctx.check(b.dominated_by(c.bb, eq_true), "accept-needs-eq:accumulated", "a state is added to the result only behind eq(x, y) == true",
+                  "unify adds a state to its result (%s) without EGraph::eq(x, y) having answered true: after the last differing slot pair was identified the argument ORDER has not been compared, so c[u, v] is accepted as an occurrence of c[v, u]" % role_str(r)[:60], where_of(b, c.bb))
     # recursive extension only under union_slot == Some
     rec = [c for c in b.calls if c.callee and c.callee.target == b.id]
     for c in rec:
@@ -484,3 +491,46 @@ def v11(ctx):
 
 
 RULES.append(v11)
+
+
+@rule("V12", doc="a binding enters the multi-pattern substitution in the state's current slot names: the invocation went through the state's slot find, or is made of brand-new slots")
+def v12(ctx):
+    crate = ctx.lib()
+    mr = multipat_roles(crate)
+    C.need("invocation find of the multi-pattern state (state_appid_find)", sorted(mr["appid_find"]))
+
+    def settled(body, role, depth=0):
+        """the invocation is spelled in the state's current names"""
+        if any(role_mentions_call(role, nm) for nm in mr["appid_find_names"]):
+            return True
+        if role_mentions_call(role, "bijection_from_fresh_to") or (role_mentions_call(role, "fresh") and not role_mentions_call(role, "applied_id_occurrences")):
+            return True
+        r = strip_role(role)
+        while isinstance(r, tuple) and r[0] == "call" and r[1] in ("clone", "to_owned") and r[3]:
+            r = strip_role(r[3][0])
+        if isinstance(r, tuple) and r[0] == "param" and depth < 3:
+            root = crate.root_of(body)
+            idx = root.param_index(r[1])
+            sites = [c for f in crate.fns() for c in f.all_calls() if c.callee and c.callee.target == root.id and not c.body.blocks[c.bb]["cleanup"]]
+            return bool(sites) and idx is not None and all(settled(c.body, c.body.role_of_operand(c.args[idx - 1]), depth + 1) for c in sites)
+        return False
+
+    n = 0
+    for b in crate.fns():
+        if not (b.file or "").endswith("multipat.rs"):
+            continue
+        for sub in b.all_bodies():
+            for c in sub.calls:
+                if sub.blocks[c.bb]["cleanup"] or not (c.callee and c.callee.name == "insert" and len(c.args) == 3):
+                    continue
+                if not role_mentions_field(sub.role_of_operand(c.args[0]), "subst"):
+                    continue
+                n += 1
+                val = sub.role_of_operand(c.args[2])
+                ctx.check(settled(sub, val), "binding-in-current-names:" + C.fkey(b), "%s binds a variable to an invocation that went through the state's slot find (or consists of fresh slots)" % C.short(b.id),
+                          "%s puts an invocation into the substitution as the e-graph spells it (%s): a slot of it that the same e-node has just identified with a pattern slot (`?o == (lam $a ?b)`) keeps its e-graph name unless a later slot union happens to re-canonicalise the table — the returned binding then mentions a slot the pattern does not have and the instantiated equation is not represented" % (C.short(b.id), role_str(val)[:70]),
+                          where_of(sub, c.bb))
+    ctx.floor("bindings entered into the multi-pattern substitution", n, 2)
+
+
+RULES.append(v12)
